@@ -98,6 +98,14 @@ def naming_axioms():
     ]
 
 
+def named_mem(st, mem):
+    """The constant naming a lambda-defined set of names in the current path (see ``_sorted``), the term itself otherwise."""
+    for t, named in st.ghost.get("h5_named_mem", []):
+        if t.eq(mem):
+            return named
+    return mem
+
+
 def sidx(i):
     return str_of_int(i if z3.is_expr(i) else z3.IntVal(i))
 
@@ -523,23 +531,24 @@ class HdfModels:
         from . import contract as C
 
         fi = getattr(ex.frame, "finfo", None)
-        if fi is None or isinstance(node, (ast.For, ast.While, ast.If, ast.With, ast.Try)):
+        if fi is None:
             return NotImplemented
         ct = ex.contract if fi is ex.finfo else C.lookup(fi.qualname, fi.kind == "setter")
+        key = ast.unparse(node).split("\n")[0]  # (a compound statement is named by its header line)
         defs = getattr(ct, "ghost_defs", None) if ct is not None else None
-        if defs and ast.unparse(node) in defs:
+        if defs and key in defs:
             # ghost assignment by definition: the new value of a declared ghost variable is a fresh constant characterised by
             # pointwise definitions (``fn(c) -> {ghost: g -> [defining facts]}``; lambda-free, so that the facts can carry triggers)
             from .values import GHOST_SORTS
 
-            for name, facts in defs[ast.unparse(node)](ex._loop_ctx(None, None)).items():
+            for name, facts in defs[key](ex._loop_ctx(None, None)).items():
                 g = ex.st.fresh_const(f"ghost_{name}", GHOST_SORTS[name])
                 for f in facts(g):
                     ex.st.assume(f)
                 ex.st.ghost_set(name, g)
         lem = getattr(ct, "cited_lemmas", None) if ct is not None else None
         if lem:
-            fn = lem.get(ast.unparse(node))
+            fn = lem.get(key)
             if fn is not None:
                 for label, f in fn(ex._loop_ctx(None, None)):
                     ex.assumed.add(f"cited lemma (assumed): {label}")
@@ -558,8 +567,17 @@ class HdfModels:
         mem = ex.models._iter_member(ex, src, kt)
         i, k = z3.Int("i!so"), z3.Const("k!so", kt.sort())
         n = seq.n
-        st.assume(z3.ForAll([i], z3.Implies(z3.And(0 <= i, i < n), z3.And(mem[sorted_el(mem, i)], sorted_pos(mem, sorted_el(mem, i)) == i)), patterns=[sorted_el(mem, i)]))
-        st.assume(z3.ForAll([k], z3.Implies(mem[k], z3.And(0 <= sorted_pos(mem, k), sorted_pos(mem, k) < n, sorted_el(mem, sorted_pos(mem, k)) == k)), patterns=[sorted_pos(mem, k)]))
+        if not z3.is_const(mem):
+            # a membership given by a lambda term (comprehension): name it, so that the facts below can carry triggers
+            # (contracts get the name through ``named_mem``; sorted(S) only depends on the set S, and ``named`` IS that set)
+            named = st.fresh_const("smem", MEMS)
+            st.assume(z3.ForAll([k], named[k] == mem[k], patterns=[named[k]]))
+            st.ghost.setdefault("h5_named_mem", []).append((mem, named))
+            mem = named
+        from .values import forall_pat
+
+        st.assume(forall_pat([i], z3.Implies(z3.And(0 <= i, i < n), z3.And(mem[sorted_el(mem, i)], sorted_pos(mem, sorted_el(mem, i)) == i)), sorted_el(mem, i)))
+        st.assume(forall_pat([k], z3.Implies(mem[k], z3.And(0 <= sorted_pos(mem, k), sorted_pos(mem, k) < n, sorted_el(mem, sorted_pos(mem, k)) == k)), sorted_pos(mem, k)))
         ro = ListObj(TStr, n, z3.Lambda([i], sorted_el(mem, i)))
         ro.ty = TList(TStr)
         ro.sorted_of = mem
